@@ -122,10 +122,12 @@ def run_unit(u):
         base = [t for t in gen.token_strings(spec, u["maxtok"])]
         single = all(k == "str" and len(v) == 1 for k, v in spec.terms.values())
         inputs = list(base)
+        # deterministic scope: the layout variants must not depend on VERIF_SEED (fingerprints)
+        lrng = random.Random(h16(gtxt)) if spec.exhaustive else rng
         if single:
-            inputs += [gen.with_layout(rng, t, fillers) for t in base for _ in range(2)]
+            inputs += [gen.with_layout(lrng, t, fillers) for t in base for _ in range(2)]
         else:
-            inputs += [rng.choice(fillers) + t + rng.choice(fillers) for t in base[::2]]
+            inputs += [lrng.choice(fillers) + t + lrng.choice(fillers) for t in base[::2]]
         bump(st["layout_modes"], spec.layout or "ws-param")
         parsers = []
         try:
@@ -159,7 +161,7 @@ def run_unit(u):
                     recorder = None
             for text in inputs:
                 case = {"grammar": gtxt, "parser": pname, "input": text, "layout": spec.layout or "ws-param",
-                        "lex_overlap": "lex-overlap" in gen.features(spec)}
+                        "lex_overlap": "lex-overlap" in gen.features(spec), "deterministic": spec.exhaustive}
                 trees = []
                 try:
                     with budget(5):
@@ -223,7 +225,11 @@ def run_unit(u):
                     # formed once every position is moved to where layout skipping arrives
                     if case["parser"] == "GLR" and has_empty and out[qr] == "posokr 1" and \
                             any(ch in " \n\t#/*" for ch in case["input"]):
-                        v["attribution"] = "glr-empty-node-in-layout"
+                        if case.get("deterministic"):
+                            # deterministic scope: only the listed (grammar, layout mode, input, tree)
+                            v["fingerprint"] = h16(["F-POS-3", case["grammar"], case["layout"], case["input"], sx])
+                        else:
+                            v["attribution"] = "glr-empty-node-in-layout"
                     res["violations"].append(v)
     res["traces"] = st["traces"]
     return res
